@@ -715,6 +715,7 @@ func init() {
 			sc.QuietMs = 2000
 			sc.Strategy.StallMaxMs = Pick(r, 5, 50)
 			sc.Project.LogLength = Pick(r, 0, 0, 5000, 30, 5)
+			big := sc.Project.LogLength > 0 && sc.Project.LogLength <= 30 && r.P(400)
 			switch r.Intn(4) {
 			case 0:
 				sc.Project.LogLocation = "project.log"
@@ -735,7 +736,11 @@ func init() {
 				for l := range ts.Launches {
 					ts.Launches[l].Out = nil
 					ts.Launches[l].Children = nil
-					genOutput(r, &ts.Launches[l], p.Name, l)
+					minLines := 0
+					if big && l == 0 {
+						minLines = sc.Project.LogLength + 110
+					}
+					genOutput(r, &ts.Launches[l], p.Name, l, minLines)
 					if r.P(80) {
 						// a background child keeps the pipes open for a while after the exit
 						ts.Launches[l].Children = []simos.Script{{LifeMs: ts.Launches[l].LifeMs + Pick(r, 100, 1000), HoldsPipes: true}}
@@ -792,3 +797,22 @@ func sortOps(ops []Op) {
 }
 
 var _ = fmt.Sprint
+
+func init() {
+	register(&PropDef{ID: "C13", Rule: "a replicated process s (1-11 replicas initially, 98-101 occasionally in the thorough tier; command, description and environment templated with the replica number) next to 0-2 other processes; 1-5 successive scale requests (up, down, across the 9/10 and 99/100 width boundaries, to the current value, n<1, unknown and stale names), each followed by an audit of names, states, configurations and logs and compared with the simulated process table; non-trivial = at least one successful scale request that changes the count; distinct = distinct trace hash",
+		Gen: func(seed uint64, idx int, tier string) *Scenario {
+			sc, r := baseScenario("C13", seed)
+			genC13(r, sc, tier)
+			return sc
+		},
+		Check: checkC13,
+		NonTrivial: func(sc *Scenario, res *RunResult, t *Truth) bool {
+			for _, c := range t.Calls {
+				if c.Op == "scale" && c.Err == "" && c.RetSeq >= 0 {
+					return true
+				}
+			}
+			return false
+		},
+	})
+}
